@@ -3,7 +3,7 @@
    specification (headers, versions, streams) in Proofs/XfrSpec.v. *)
 From DV Require Import Base.Prelude Model.XfrM Proofs.XfrSpec.
 From DV Require Proofs.XfrZone Proofs.XfrDiff.
-From DV Require Proofs.XfrSafety Proofs.XfrBasic Proofs.XfrIxfr Proofs.XfrAxfr Proofs.XfrFault Proofs.XfrOrder Proofs.XfrRefresh Proofs.XfrGlue.
+From DV Require Proofs.XfrSafety Proofs.XfrBasic Proofs.XfrIxfr Proofs.XfrAxfr Proofs.XfrFault Proofs.XfrOrder Proofs.XfrRefresh Proofs.XfrGlue Proofs.XfrTsig.
 From Coq Require Import Sorting.Permutation.
 
 (* Whatever is received (any messages, any records, any chunking, any fault), if the transfer ends
@@ -315,6 +315,39 @@ Theorem try_first_falls_back : forall v0 chain z tbu tbt wu recs ws,
 Proof. exact XfrRefresh.try_first_falls_back. Qed.
 Print Assumptions try_first_falls_back.
 
+(* ---- transfers authenticated with TSIG (Inbound.require_tsig, set by the drivers when a keyring
+        is in use; xfr_run true).  TSIG validation itself is outside the model: w_tsig says that the
+        message carried a (valid) TSIG. ---- *)
+
+(* the safety theorems above hold for authenticated transfers as well *)
+Theorem error_leaves_zone_authenticated : forall req z rdt ser udp ws e z' n,
+  xfr_run req z rdt ser udp ws = (Error e z', n) -> z' = z.
+Proof. exact XfrSafety.error_leaves_zone_t. Qed.
+Print Assumptions error_leaves_zone_authenticated.
+
+(* with require_tsig, a message that carries no TSIG never publishes anything (the defect fixed by
+   388fa96 was: the unsigned last message committed and "missing TSIG" was raised afterwards) *)
+Theorem unsigned_message_never_applies : forall s m s' o,
+  req_tsig s = true -> m_tsig m = false ->
+  process_message s m = (s', o) -> pub s' = pub s.
+Proof. exact XfrTsig.unsigned_message_never_applies. Qed.
+Print Assumptions unsigned_message_never_applies.
+
+(* a completed authenticated transfer changed the zone only if the message that completed it was signed *)
+Theorem authenticated_completion_is_signed : forall z rdt ser udp ws z' n,
+  xfr_run true z rdt ser udp ws = (Done z', n) ->
+  z' = z \/ exists w, nth_error ws (pred n) = Some w /\ w_tsig w = true.
+Proof. exact XfrTsig.authenticated_completion_is_signed. Qed.
+Print Assumptions authenticated_completion_is_signed.
+
+(* when every message is signed the authenticated transfer is exactly the unauthenticated one: all
+   convergence and rejection theorems of this file carry over *)
+Theorem xfr_run_all_signed : forall z rdt ser udp ws,
+  Forall (fun w => w_tsig w = true) ws ->
+  xfr_run true z rdt ser udp ws = inbound_xfr z rdt ser udp ws.
+Proof. exact XfrTsig.xfr_run_all_signed. Qed.
+Print Assumptions xfr_run_all_signed.
+
 (* non-vacuity: concrete instances of the hypotheses *)
 Example ex_backwards :
   let w := mkW 0 [(0, tIXFR)] [mkRR 0 1 6 0 3600 5; mkRR 1 1 1 0 300 7] in
@@ -453,3 +486,10 @@ Proof.
     + apply ex_chunking. discriminate.
     + apply XfrRefresh.rp_nil.
 Qed.
+
+(* an authenticated AXFR whose last message is unsigned: rejected before anything is committed *)
+Example ex_missing_tsig :
+  xfr_run true [((5, 1, 0), (1, [1]))] tAXFR None false
+    [mkWT 0 [] [soa_rr ex_v2; mkRR 0 1 2 0 3600 3] true; mkWT 0 [] [mkRR 2 1 16 0 0 9; mkRR 0 1 2 0 3600 2; soa_rr ex_v2] false]
+  = (Error eMissingTSIG [((5, 1, 0), (1, [1]))], 1%nat).
+Proof. vm_compute. reflexivity. Qed.
